@@ -12,6 +12,9 @@ structure St where
   lbTask : Option String := none
   /-- scripted tasks: remaining op starts and results so far -/
   scripts : List (String × (List Pc × List String)) := []
+  /-- scheduler-level status of each task: "new" | "blocked" | "run" | "done" (a future can only be dropped when
+  it was never polled or is parked) -/
+  status : List (String × String) := []
 
 def showOut : StepOut → String
   | .at l => "@" ++ l
@@ -45,7 +48,7 @@ def relabel (pfx : String) : StepOut → StepOut
   | .at _ => .at (pfx ++ ".wait.checked")
   | o => o
 
-def runOp (st : St) (p : List String) : St × String :=
+def runOp0 (st : St) (p : List String) : St × String :=
   match p with
   | ["rpq", "new", cap] => ({ st with rpq := { readyCap := max cap.toNat! 1 }, scripts := [] }, "ok")
   | ["rpq", "pipe", id, cap] =>
@@ -114,5 +117,33 @@ def runOp (st : St) (p : List String) : St × String :=
     let ps := st.rpq.pipes.map fun q => s!"p{q.id}:q{q.queued},r{q.reserved},l{q.chan.length}"
     (st, s!"{" ".intercalate ps} ready={st.rpq.ready.length} wg={st.wgCount}")
   | _ => (st, "bad-op")
+
+def setStatus (st : St) (tid v : String) : St :=
+  { st with status := (st.status.filter (·.1 != tid)) ++ [(tid, v)] }
+
+def runOp (st : St) (p : List String) : St × String :=
+  match p with
+  | "task" :: tid :: _ =>
+    let r := runOp0 st p
+    (setStatus r.1 tid "new", r.2)
+  | ["step", tid] =>
+    match (st.status.find? (·.1 == tid)).map (·.2) with
+    | none => (st, "no-task")
+    | some v =>
+      if v.startsWith "done:" then (st, (v.drop 5).toString)   -- a finished task keeps reporting its final outcome
+      else
+        let r := runOp0 st p
+        let v' := if r.2 == "blocked" then "blocked" else if r.2.startsWith "done(" then "done:" ++ r.2 else "run"
+        (setStatus r.1 tid v', r.2)
+  | ["cancel", tid] =>
+    match (st.status.find? (·.1 == tid)).map (·.2) with
+    | none => (st, "no-task")
+    | some v =>
+      if v == "run" then (st, "done(cannot-cancel-here)")
+      else if v.startsWith "done:" then (st, (v.drop 5).toString)
+      else
+        let r := runOp0 st p
+        (setStatus r.1 tid ("done:" ++ r.2), r.2)
+  | _ => runOp0 st p
 
 end Rzmq.Driver.Conc
